@@ -13,7 +13,7 @@ import (
 // Model vs. real library: every model is compared with the function it stands for on
 // ALL strings up to length 4 over an alphabet containing every byte class the models branch on.
 
-var alphabet = []byte{',', '=', ' ', '\t', '(', ')', '[', ']', '{', '}', '$', '#', ':', 'a', 'A', 'z', '0', '9', '.', '+', '-', '"', '\'', '_', 0xC3, 0x80}
+var alphabet = []byte{',', '=', ' ', '\t', '(', ')', '[', ']', '{', '}', '$', '#', ':', 'a', 'A', 'z', '0', '9', '.', '+', '-', '"', '\'', '_', 0xC3, 0x80, 0xC2, 0xA0, 0x85, 0xE2, 0xE3}
 
 func allStrings(max int, f func(s string)) {
 	var rec func(prefix []byte, n int)
